@@ -245,6 +245,52 @@ def decode_with_tracklib(mdl, log, mode="scalar", verbose=0, ctor=False, trace=N
     return inf
 
 
+def decode_rerun(mdl_a, mdl_b, log, how, mode="scalar"):
+    """Call history on ONE HMM object and ONE track object: estimate() with the candidate lists of mdl_a, then the
+    candidates are changed to those of mdl_b (same tables, same number of epochs) -- either through setStates() or
+    by editing, in place, the track feature that the state function reads -- and estimate() is run again.
+    Returns the second run's (inference, cost) or M.Raised."""
+    from tracklib.algo.dynamics import HMM
+    T = len(mdl_a.states)
+    tr = gen.make_track([(float(mdl_a.obs[k]), float(k), 0.0) for k in range(T)])
+    tr.createAnalyticalFeature("sym", [float(v) for v in mdl_a.obs])
+    tr.createAnalyticalFeature("grp", [0.0] * T)
+    tables = [mdl_a.states, mdl_b.states]
+
+    def S_a(track, k):
+        return tables[int(track["grp", k])][k] if how == "track_edit" else mdl_a.states[k]
+
+    def S_b(track, k):
+        return mdl_b.states[k]
+
+    if log:
+        def Qf(s1, s2, k, track):
+            return math.log(mdl_a.Q(s1, s2, k) + FLOOR)
+
+        def Pf(s, y, k, track):
+            return math.log(mdl_a.P(s, _sym(y), k) + FLOOR)
+    else:
+        def Qf(s1, s2, k, track):
+            return mdl_a.Q(s1, s2, k)
+
+        def Pf(s, y, k, track):
+            return mdl_a.P(s, _sym(y), k)
+    h = HMM(S_a, Qf, Pf, log=log, stationarity=mdl_a.stationary)
+    obsname = "sym" if mode == "scalar" else ["x", "y"]
+    r = M.call(h.estimate, tr, obsname, mode=MODE_NAMES[mode], verbose=0)
+    if M.is_raised(r):
+        return r
+    if how == "track_edit":
+        for k in range(T):
+            tr["grp", k] = 1.0
+    else:
+        h.setStates(S_b)
+    r = M.call(h.estimate, tr, obsname, mode=MODE_NAMES[mode], verbose=0)
+    if M.is_raised(r):
+        return r
+    return M.call(lambda: (list(tr["hmm_inference"]), list(tr["hmm_cost"])))
+
+
 def judge(mdl, out, p, q, best, ctx, tag):
     """Compare one decoding with the oracle.  None or a witness dict."""
     T = len(mdl.states)
@@ -395,7 +441,7 @@ def floors(tier):
     big = tier == "thorough"
     k = 8 if big else 1
     return {"monitors": {"membership": 500000 * k, "optimal_likelihood": 120000 * k, "last_epoch_cost": 120000 * k,
-                         "log_mode_same_cost": 100000 * k},
+                         "log_mode_same_cost": 100000 * k, "rerun_same_objects": 500 * k},
             "classes": {"exhaustive_block": 700 * k, "exh_three": 700 * k, "exh_quarter": 60 * k, "ties": 300, "zeros": 1000, "all_zero": 100,
                         "unique_optimum": 500, "unequal_counts": 1500, "stationary": 500, "per_epoch": 1500,
                         "T=1": 50, "T>=6": 500, "single_candidate_epoch": 500, "unnormalised_gt1": 300,
@@ -594,6 +640,32 @@ def run_rnd(case, ctx):
             if not M.feq(out[1][T - 1], out2[1][T - 1], 2e-9, 2e-9):
                 w = {"what": "log mode and likelihood mode record different optimal costs",
                      "cost_likelihood_mode": out[1][T - 1], "cost_log_mode": out2[1][T - 1]}
+    if w is None and int(sig[:4], 16) % 3 == 0:
+        # re-run history: same HMM object, same track object, other candidate lists (same tables, which are total
+        # over the label universe); the second decoding is judged against the second model
+        import random
+        hr = random.Random(sig)
+        U = 6
+        if case["stationary"]:
+            lab = hr.sample(range(U), hr.randint(1, 5))
+            states2 = [list(lab) for _ in range(T)]
+        else:
+            states2 = [hr.sample(range(U), hr.randint(1, 5)) for _ in range(T)]
+        if states2 != states:
+            mdl2 = model_from_tables(states2, case["obs"], case["stationary"], case["P"], case["Q"])
+            counts2 = [len(x) for x in states2]
+            p2, q2 = mdl2.tables(Fraction)
+            best2, nbest2, _ = viterbi_exact(p2, q2, counts2)
+            if not (best2 > 0 and neg_log(best2) > 600):
+                how = hr.choice(["setStates", "track_edit"])
+                uselog = hr.random() < 0.3
+                out3 = decode_rerun(mdl, mdl2, uselog, how, case["mode"])
+                ctx.monitor("rerun_same_objects")
+                w = judge(mdl2, out3, p2, q2, best2, ctx, "second estimate() on the same HMM and track objects after the "
+                                                         "candidate states were changed (%s)" % how)
+                cls.append("history_rerun")
+                if w is not None:
+                    w.update({"first_run_states": states, "second_run_states": states2})
     if w is not None:
         w.update({"sequences": nseq, "optimal_sequences": nbest, "counts": counts,
                   "diag_tie_cells": t, "diag_backpointer_not_argmin_cells": b,
